@@ -70,6 +70,12 @@ def space_tokens(sp):
         return [k, fb(sp[1])]
     if k == "wrap":
         return ["wrap"] + space_tokens(sp[1])
+    if k == "spacetime":          # ("spacetime", vmax, timeWeight, None | (lo, hi), space)
+        return ["spacetime", fb(sp[1]), fb(sp[2])] + (["u"] if sp[3] is None else ["b", fb(sp[3][0]), fb(sp[3][1])]) + space_tokens(sp[4])
+    if k == "empty":
+        return ["empty"]
+    if k == "cfw":                # CForestStateSpaceWrapper, top level only
+        return ["cfw"] + space_tokens(sp[1])
     raise ValueError(k)
 
 
@@ -108,6 +114,19 @@ def parse_space(t, i=0):
     if k == "wrap":
         s, i = parse_space(t, i)
         return ("wrap", s), i
+    if k == "cfw":
+        s, i = parse_space(t, i)
+        return ("cfw", s), i
+    if k == "empty":
+        return ("empty",), i
+    if k == "spacetime":
+        vmax, tw = bf(t[i]), bf(t[i + 1])
+        if t[i + 2] == "u":
+            tb, i = None, i + 3
+        else:
+            tb, i = (bf(t[i + 3]), bf(t[i + 4])), i + 5
+        s, i = parse_space(t, i)
+        return ("spacetime", vmax, tw, tb, s), i
     raise ValueError("space kind " + k)
 
 
@@ -151,8 +170,13 @@ def leaves(sp, owner=None, w=1.0, out=None):
     elif k == "sphere":
         out.append({"kind": "so2", "n": 1, "lo": None, "hi": None, "owner": owner or "sphere", "w": w})
         out.append({"kind": "rv", "n": 1, "lo": [0.0], "hi": [PI], "owner": owner or "sphere", "w": w})
-    elif k == "wrap":
+    elif k in ("wrap", "cfw"):
         leaves(sp[1], owner, w, out)
+    elif k == "empty":
+        leaf("rv", 0, [], [])
+    elif k == "spacetime":
+        leaves(sp[4], owner, w * (1 - sp[2]), out)
+        leaf("time", 1, None if sp[3] is None else [sp[3][0]], None if sp[3] is None else [sp[3][1]], w * sp[2])
     return out
 
 
@@ -164,8 +188,13 @@ def units(sp, out=None):
     if k == "cmp":
         for _, s_ in sp[1]:
             units(s_, out)
-    elif k == "wrap":
+    elif k in ("wrap", "cfw"):
         units(sp[1], out)
+    elif k == "spacetime":
+        units(sp[4], out)
+        out.append(("time", 1, ("time", sp[3])))
+    elif k == "empty":
+        out.append(("rv", 1, ("rv", [], [])))
     elif k == "se2":
         out += [("rv", 1, ("rv", sp[1], sp[2])), ("so2", 1, ("so2",))]
     elif k == "se3":
@@ -205,6 +234,10 @@ def ext_of(sp):
         return 2 * PI
     if k == "sphere":
         return PI * sp[1]
+    if k == "spacetime":
+        return math.inf
+    if k == "empty":
+        return 0.0
     return ext_of(sp[1])
 
 
@@ -214,8 +247,10 @@ def kinds(sp, acc=None):
     if sp[0] == "cmp":
         for _, s in sp[1]:
             kinds(s, acc)
-    elif sp[0] == "wrap":
+    elif sp[0] in ("wrap", "cfw"):
         kinds(sp[1], acc)
+    elif sp[0] == "spacetime":
+        kinds(sp[4], acc)
     return acc
 
 
@@ -226,14 +261,16 @@ def is_continuous(sp):
 def is_geodesic(sp):
     """spaces the proportional-distance clause lists: R^n, SO(2), SO(3), SE(2), SE(3), time, torus and
     weighted compounds (and wrappers) of them."""
-    return kinds(sp) <= {"rv", "so2", "so3", "se2", "se3", "time", "torus", "cmp", "wrap"}
+    return kinds(sp) <= {"rv", "so2", "so3", "se2", "se3", "time", "torus", "cmp", "wrap", "cfw", "empty"}
 
 
 def depth(sp):
     if sp[0] == "cmp":
         return 1 + max([depth(s) for _, s in sp[1]] or [0])
-    if sp[0] == "wrap":
+    if sp[0] in ("wrap", "cfw"):
         return depth(sp[1])
+    if sp[0] == "spacetime":
+        return 1 + depth(sp[4])
     return 0
 
 
@@ -394,7 +431,10 @@ def special_seam_fix(r, sp_leaves, a, b, counts):
             counts["pair:klein:seam-forced"] = counts.get("pair:klein:seam-forced", 0) + 1
 
 
-T_FIXED = [0.0, 1.0, 0.5, 0.75, EPS_D, 5e-324, dn(1.0)]
+T_FIXED = [0.0, -0.0, 1.0, 0.5, 0.75, EPS_D, 5e-324, dn(1.0)]
+# outside the property's quantifier: never judged by the oracle, but model and implementation must still agree
+# bit for bit and nothing may crash (not generated for spaces with a discrete component: (int)floor(NaN) is UB)
+T_OUTSIDE = [-0.25, 1.5, up(1.0), -5e-324, math.nan, math.inf, -1e300]
 # non-dyadic parameters (what DiscreteMotionValidator's j/nd produces): 1-t and the products are inexact
 T_NONDYADIC = [0.06, 0.07, 0.08, 0.19, 1.0 / 3.0, 0.1, 0.3, 0.57, 0.7, 0.93, 2.0 / 3.0, 0.01, 0.99]
 
@@ -429,7 +469,11 @@ def gen_pair_lines(r, sp, mode, counts, n_rand_t, n_reparam):
     bt = " ".join(sum((tok(lf, v) for lf, v in zip(lv, b)), []))
     sep = " " if at else ""
     lines = []
-    for t in t_values(r, lv, a, b, n_rand_t):
+    tv = t_values(r, lv, a, b, n_rand_t)
+    if r.chance(1, 4) and not any(lf["kind"] == "disc" for lf in lv):
+        tv.append(r.choice(T_OUTSIDE))
+        counts["t-outside-quantifier"] = counts.get("t-outside-quantifier", 0) + 1
+    for t in tv:
         lines.append(("interp %s%s%s%s%s" % (at, sep, bt, sep, fb(t))).replace("  ", " "))
     for _ in range(n_reparam):
         s = r.choice([0.5, r.unit(), r.unit(), 0.0, 1.0, dn(1.0)])
@@ -467,7 +511,12 @@ def rv_space(r, n=None):
 
 
 def leaf_space(r):
-    c = r.below(13)
+    c = r.below(15)
+    if c == 13:
+        return ("spacetime", r.choice([0.5, 1.0, 3.0]), r.choice([0.0, 0.25, 0.5, 1.0]), r.choice([None, (0.0, r.uniform(1, 20))]),
+                r.choice([("so2",), rv_space(r, 2), ("se2", [-1.0, -1.0], [1.0, 1.0])]))
+    if c == 14:
+        return ("empty",)
     if c == 0:
         return rv_space(r)
     if c == 1:
@@ -510,6 +559,38 @@ def rand_compound(r, d):
     return ("wrap", sp) if r.chance(1, 10) else sp
 
 
+def remutate(r, sp):
+    """HISTORY: the same structure with re-drawn bounds and weights (what setBounds / setSubspaceWeight
+    after setup() produce); an unbounded time component may become bounded, never the reverse"""
+    k = sp[0]
+    if k == "rv":
+        return rv_space(r, len(sp[1]))
+    if k == "time":
+        if sp[1] is None and r.chance(1, 2):
+            return sp
+        l = r.uniform(-10, 10)
+        return ("time", (l, l + r.uniform(0.1, 100)))
+    if k == "disc":
+        l = r.range(-5, 5)
+        return ("disc", l, l + r.range(0, 9))
+    if k == "cmp":
+        return ("cmp", [((r.choice(TINY_WEIGHTS) if r.chance(1, 3) else r.choice(WEIGHTS)), remutate(r, s_)) for _, s_ in sp[1]])
+    if k in ("se2", "se3"):
+        n = rv_space(r, len(sp[1]))
+        if any(not l < h for l, h in zip(n[1], n[2])):
+            return sp                      # SE2/SE3::setBounds insists on low < high
+        return (k, n[1], n[2])
+    if k in ("wrap", "cfw"):
+        return (k, remutate(r, sp[1]))
+    if k == "spacetime":
+        tb = sp[3]
+        if tb is not None or r.chance(1, 2):
+            l = r.uniform(0, 5)
+            tb = (l, l + r.uniform(1, 50))
+        return ("spacetime", sp[1], sp[2], tb, remutate(r, sp[4]))
+    return sp
+
+
 def shipped_spaces():
     return [
         ("rv", [-1.0], [1.0]),
@@ -532,6 +613,27 @@ def shipped_spaces():
         ("cmp", [(1.0, ("so2",)), (2.0, ("so2",))]),
         ("cmp", [(1.0, ("rv", [0.0], [1.0])), (0.5, ("disc", 0, 4)), (1.0, ("so2",))]),
         ("cmp", []),
+        # the remaining shipped spaces that inherit or forward interpolate: SpaceTime (a compound [space, time] with
+        # weights 1-w, w), Empty (R^0), CForestStateSpaceWrapper (forwards to the wrapped space, shares its states),
+        # WrapperStateSpace around compounds / special spaces (aliasing goes through the wrapper's inner states)
+        ("spacetime", 1.0, 0.5, None, ("rv", [-1.0, -1.0], [1.0, 1.0])),
+        ("spacetime", 2.0, 0.0, (0.0, 10.0), ("se2", [-5.0, -5.0], [5.0, 5.0])),
+        ("spacetime", 0.5, 1.0, (0.0, 4.0), ("so2",)),
+        ("empty",),
+        ("cmp", [(1.0, ("empty",)), (1.0, ("so2",)), (0.0, ("empty",))]),
+        ("cfw", ("se2", [-1.0, -2.0], [1.0, 2.0])),
+        ("cfw", ("so3",)),
+        ("cfw", ("cmp", [(1.0, ("so2",)), (0.0, ("rv", [-5.0], [5.0])), (2.0, ("klein",))])),
+        ("wrap", ("wrap", ("so2",))),
+        ("wrap", ("mobius", 1.0, 1.0)),
+        ("wrap", ("klein",)),
+        ("wrap", ("cmp", [(1.0, ("wrap", ("so3",))), (0.5, ("disc", 0, 3))])),
+        # discrete spaces with lower == upper and close to the int extremes (difference stays representable)
+        ("disc", 5, 5),
+        ("disc", 2147483000, 2147483647),
+        ("disc", -2147483648, -2147483000),
+        ("disc", -1073741823, 1073741823),
+        ("disc", -2147483648, 2147483647),      # states can be more than INT_MAX apart (F155)
         # boxes whose walls have large magnitude (ulp(bound) > DBL_EPSILON: satisfiesBounds' slack no longer hides an ulp)
         ("rv", [-5.0, -5.0], [5.0, 5.0]),
         ("rv", [-1000.0, -1000.0], [1000.0, 1000.0]),
@@ -570,10 +672,17 @@ def gen_scripts(ck, tier):
                 counts["space-kind:" + kd] = counts.get("space-kind:" + kd, 0) + 1
             counts["space-depth:%d" % depth(sp)] = counts.get("space-depth:%d" % depth(sp), 0) + 1
             np_ = n_pairs if tag == "shipped" else max(3, n_pairs // 2)
+            mutate_at = np_ // 2 if r.chance(1, 3) else -1
             for p in range(np_):
+                if p == mutate_at:
+                    sp = remutate(r, sp)
+                    lines.append("mutate " + " ".join(space_tokens(sp)))
+                    counts["history:mutate-after-setup"] = counts.get("history:mutate-after-setup", 0) + 1
                 mode = ["adv", "rand", "wall", "adv", "rand", "coincident", "adv", "wall"][p % 8]
                 counts["pair-mode:" + mode] = counts.get("pair-mode:" + mode, 0) + 1
                 lines += gen_pair_lines(r, sp, mode, counts, n_rand_t, n_rep if is_continuous(sp) else 1)
+            if tag == "shipped":
+                lines.append("sanity")
         scripts.append(("gen%d" % (c // chunk), lines, counts))
     return scripts
 
@@ -641,7 +750,8 @@ def has_sentinel(lf, v):
     if k == "so3":
         return v == [7.0] * 4
     if k == "disc":
-        return v[0] == lf["hi"][0] + 1000
+        hi, lo = lf["hi"][0], lf["lo"][0]
+        return v[0] == (hi + 1000 if hi <= 2147483647 - 1000 else (lo - 1000 if lo >= -2147483648 + 1000 else hi))
     return any(x == 7.77e77 for x in v)
 
 
@@ -656,6 +766,92 @@ def ulp_out(lf, v):
         if x < l:
             worst = max(worst, (l - x) / u)
     return worst
+
+
+def so2_coded(a, b, t):
+    """SO2StateSpace::interpolate as coded (after the F4 fix), in IEEE double"""
+    diff = b - a
+    if abs(diff) <= PI:
+        return a + diff * t
+    diff = 2.0 * PI - diff if diff > 0.0 else -2.0 * PI - diff
+    v = a - diff * t
+    if v >= PI:
+        v -= 2.0 * PI
+    elif v < -PI:
+        v += 2.0 * PI
+    return v
+
+
+def klein_coded(u1, v1, u2, v2, t):
+    """KleinBottleStateSpace::interpolate as coded (after the F4 fix), in IEEE double"""
+    du = u2 - u1
+    if abs(du) <= 0.5 * PI:
+        return u1 + (u2 - u1) * t, so2_coded(v1, v2, t)
+    du = PI - du if du > 0.0 else -PI - du
+    u = u1 - du * t
+    crossed = False
+    if u > PI:
+        u -= PI
+        crossed = True
+    elif u < 0.0:
+        u += PI
+        crossed = True
+    if crossed:
+        v1 = PI - v1 if v1 > 0.0 else -PI - v1
+    else:
+        v2 = PI - v2 if v2 > 0.0 else -PI - v2
+    dv = v2 - v1
+    if abs(dv) <= PI:
+        v = v1 + dv * t
+    else:
+        dv = 2.0 * PI - dv if dv > 0.0 else -2.0 * PI - dv
+        v = v1 - dv * t
+        if v >= PI:
+            v -= 2.0 * PI
+        elif v < -PI:
+            v += 2.0 * PI
+    return u, v
+
+
+def dist_coded(sp, la, lb, clamp, pos=None, w=1.0):
+    """the weighted distance of a geodesic space as coded (clamp=True) or with SO(3)'s arcLength clamp
+    removed (clamp=False); la/lb = leaf value lists in state order"""
+    pos = [0] if pos is None else pos
+    k = sp[0]
+
+    def nxt():
+        x, y = la[pos[0]], lb[pos[0]]
+        pos[0] += 1
+        return x, y
+    if k in ("rv", "empty"):
+        x, y = nxt()
+        return math.sqrt(sum((p - q) * (p - q) for p, q in zip(x, y)))
+    if k == "so2":
+        x, y = nxt()
+        d = abs(x[0] - y[0])
+        return 2.0 * PI - d if d > PI else d
+    if k == "so3":
+        x, y = nxt()
+        dq = abs(sum(p * q for p, q in zip(x, y)))
+        if clamp and dq > 1.0 - 1e-9:
+            return 0.0
+        return math.acos(min(1.0, dq))
+    if k == "time":
+        x, y = nxt()
+        return abs(x[0] - y[0])
+    if k == "cmp":
+        return sum(cw * dist_coded(s_, la, lb, clamp, pos) for cw, s_ in sp[1])
+    if k == "se2":
+        return dist_coded(("rv",), la, lb, clamp, pos) + 0.5 * dist_coded(("so2",), la, lb, clamp, pos)
+    if k == "se3":
+        return dist_coded(("rv",), la, lb, clamp, pos) + dist_coded(("so3",), la, lb, clamp, pos)
+    if k == "torus":
+        x = dist_coded(("so2",), la, lb, clamp, pos)
+        y = dist_coded(("so2",), la, lb, clamp, pos)
+        return math.sqrt(x * x + y * y)
+    if k in ("wrap", "cfw"):
+        return dist_coded(sp[1], la, lb, clamp, pos)
+    raise ValueError(k)
 
 
 def parse_op(sp, line):
@@ -687,13 +883,15 @@ def so2_class(a, b, rv):
 def oracle_line(sp, line, out):
     """the property evaluated on one implementation output line.
     returns a list of failure records (dicts with clause / culprit / class / what)."""
-    if out in ("ok",):
+    if out in ("ok",) or line == "sanity":
         return []
     if out == "oob-input":
         return [{"clause": "generator", "culprit": sp[0], "class": "input not in bounds", "what": "generated state fails satisfiesBounds"}]
     if out == "bad-op" or out == "<missing>":
         return [{"clause": "protocol", "culprit": sp[0], "class": out, "what": "no result for a well-formed line (crash, abort or sanitizer report)"}]
     op, lv, a, b, par = parse_op(sp, line)
+    if not all(0.0 <= p_ <= 1.0 for p_ in par):
+        return []      # t outside [0,1] / NaN: outside the property's quantifier (correspondence and sanitizers only)
     f = fields(out)
     fails = []
     ext = ext_of(sp)
@@ -721,7 +919,8 @@ def oracle_line(sp, line, out):
                 if lv[i]["owner"] == "klein" and i > 0 and abs(b[i - 1][0] - frm[i - 1][0]) > 0.5 * PI:
                     # Klein's own copy of the SO(2) code (seam branch); its cylinder branch is the SO(2) clause
                     cls = "seam-branch v == +pi" if v[0] == PI else "seam-branch v outside [-pi, pi]"
-                    if v[0] == PI and (0 < frm[i][0] < 2.0 ** -51 or 0 < b[i][0] < 2.0 ** -51):
+                    if v[0] == PI and (0 < frm[i][0] < 2.0 ** -51 or 0 < b[i][0] < 2.0 ** -51) and \
+                            klein_coded(frm[i - 1][0], frm[i][0], b[i - 1][0], b[i][0], tcall)[1] == PI:
                         cls = "seam-branch v == +pi: mirror(v) = pi - v rounds to +pi for 0 < v < ulp(pi)/2 (rounding)"
             if lv[i]["kind"] in ("rv", "time") and lv[i]["lo"] is not None and lv[i]["owner"] in ("rv", "time", "sphere") \
                     and ulp_out(lv[i], v) <= 4.0:
@@ -766,6 +965,18 @@ def oracle_line(sp, line, out):
             if rec["culprit"] == "unknown" and "0" in csb:
                 rec["culprit"] = un[csb.index("0")][0]
             fails.append(rec)
+        # discrete components: the point at t is the linear blend rounded to an integer, i.e. within 1 of
+        # from + (to - from) * t in exact arithmetic (the discrete analogue of "t times the full distance"; it
+        # holds of the coded floor(from + (to-from)*t + 0.5) whenever the int difference does not overflow)
+        from fractions import Fraction
+        for li, lf in enumerate(lv):
+            if lf["kind"] == "disc":
+                x, y, z = a[li][0], b[li][0], vals(lf, split_state(lv, r)[li])[0]
+                exact = x + (y - x) * Fraction(t)
+                if abs(z - exact) > 1:
+                    fails.append({"clause": "discrete-blend", "culprit": "disc",
+                                  "class": "|to - from| > INT_MAX: the int difference to - from overflows" if abs(y - x) > 2147483647 else "off the linear blend by more than 1",
+                                  "what": "discrete interpolate(%d, %d, %r) = %d, the linear blend is %.3f" % (x, y, t, z, float(exact))})
         # a coordinate that is equal in from and to stays exactly there for every t: a theorem of the coded
         # formulas (R^n/time/SO2 short branch: a + (a - a) * t = a + 0 = a in IEEE arithmetic for finite t;
         # discrete: floor(a + 0 + 0.5) = a; Props/C07.lean rv_interpolate_fixed_coordinate) — "coincident
@@ -787,9 +998,11 @@ def oracle_line(sp, line, out):
             if ui >= len(csb) or csb[ui] != "1":
                 continue
             cslack = EPS_F * max(1.0, ext_of(usp))
+            li0 = sum(n_ for _, n_, _ in un[:ui])
+            ovf = ", |to - from| > INT_MAX: the int difference to - from overflows" if uk == "disc" and abs(b[li0][0] - a[li0][0]) > 2147483647 else ""
             for tv, flag, dk, clause, name in ((0.0, "cef", "cdfr", "endpoint0", "from"), (1.0, "cet", "cdrt", "endpoint1", "to")):
                 if t == tv and f[flag][ui] != "1" and not (f[dk][ui] != "-" and bf(f[dk][ui]) <= cslack):
-                    fails.append({"clause": clause, "culprit": uk, "class": "t=%d" % tv,
+                    fails.append({"clause": clause, "culprit": uk, "class": "t=%d%s" % (tv, ovf),
                                   "what": "component %d (%s) of interpolate(from,to,%d) is not that of %s (its equalStates is false, its distance %s)"
                                           % (ui, uk, tv, name, f[dk][ui] if f[dk][ui] == "-" else bf(f[dk][ui]))})
         if f["sb"] != ["1"] and f.get("enf") == ["1"]:
@@ -800,7 +1013,21 @@ def oracle_line(sp, line, out):
         if is_geodesic(sp) and dfr != "-" and dft != "-":
             dev = abs(bf(dfr) - t * bf(dft))
             if not dev <= slack:
-                if has3 and dev <= slack + w3 * CLAMP * 1.0000001:
+                rl_ = [vals(lf, x) for lf, x in zip(lv, split_state(lv, r))]
+                c_fr, c_ft = dist_coded(sp, a, rl_, True), dist_coded(sp, a, b, True)
+                near = lambda p_, q_: abs(p_ - q_) <= 1e-9 * max(1.0, abs(p_), abs(q_))
+                # F64 = exactly the as-coded clamp: the implementation's two distances are the as-coded ones, and the
+                # deviation is the sum, over the SO(3) leaves on the slerp branch whose point at t is still inside the
+                # clamp band (|<from, r>| > 1-1e-9, so distance(from, r) is reported as 0), of weight * t * theta;
+                # any other deviation alarms
+                expected_dev = 0.0
+                for lf, x, y, z in zip(lv, a, b, rl_):
+                    if lf["kind"] == "so3":
+                        dq = abs(sum(p_ * q_ for p_, q_ in zip(x, y)))
+                        if dq <= 1.0 - 1e-9 and abs(sum(p_ * q_ for p_, q_ in zip(x, z))) > 1.0 - 1e-9:
+                            expected_dev += abs(lf["w"]) * t * math.acos(dq)
+                if has3 and near(bf(dfr), c_fr) and near(bf(dft), c_ft) and expected_dev > 0 and \
+                        abs((t * bf(dft) - bf(dfr)) - expected_dev) <= slack:
                     fails.append({"clause": "dist-prop", "culprit": "so3", "class": "within the arcLength clamp (dq > 1-1e-9 -> 0)",
                                   "what": "distance(from, interpolate(t)) deviates from t*distance(from,to) by %.3g <= weight * acos(1-1e-9)" % dev})
                 else:
@@ -817,6 +1044,17 @@ def oracle_line(sp, line, out):
                 frm = [vals(lf, x) for lf, x in zip(lv, split_state(lv, f["s3"]))] if key == "r" else a
                 tcall = {"s3": s, "r": u, "direct": s + (1.0 - s) * u}[key]
                 fails.append(bounds_record(f[key], "%s of the re-parameterisation sequence (s=%r,u=%r) does not satisfy the bounds" % (key, s, u), frm, tcall))
+        from fractions import Fraction
+        s3l = [vals(lf, x) for lf, x in zip(lv, split_state(lv, f["s3"]))]
+        for li, lf in enumerate(lv):
+            if lf["kind"] == "disc":
+                for key, x, tt in (("s3", a[li][0], s), ("direct", a[li][0], s + (1.0 - s) * u), ("r", s3l[li][0], u)):
+                    y, z = b[li][0], vals(lf, split_state(lv, f[key])[li])[0]
+                    if abs(z - (x + (y - x) * Fraction(tt))) > 1:
+                        fails.append({"clause": "discrete-blend", "culprit": "disc",
+                                      "class": "|to - from| > INT_MAX: the int difference to - from overflows" if abs(y - x) > 2147483647 else "off the linear blend by more than 1",
+                                      "what": "discrete interpolate(%d, %d, %r) = %d (%s of the re-parameterisation sequence)" % (x, y, tt, z, key)})
+                        break
         if f["ra"] != f["r"]:
             fails.append({"clause": "alias", "culprit": sp[0], "class": "output==from (continued interpolation)",
                           "what": "interpolate(s3,to,u,s3) differs from the run with a distinct output"})
@@ -829,6 +1067,8 @@ def oracle_line(sp, line, out):
                 cd = f["cd"][ui]
                 if cd != "-" and not bf(cd) <= EPS_F * max(1.0, ext_of(usp)):
                     bad_units.append((uk, bf(cd)))
+            if "spacetime" in kinds(sp):
+                d = 0.0     # SpaceTimeStateSpace::distance is infinite for pairs it calls unreachable: per component only
             if bad_units or not d <= slack:
                 owners = sorted(set(k for k, _ in bad_units))
                 cls = "distance beyond slack"
@@ -840,7 +1080,14 @@ def oracle_line(sp, line, out):
                         if lf["owner"] == "klein" and lf.get("role") == "u" and abs(b[i][0] - a[i][0]) > 0.5 * PI:
                             v1, v2 = a[i + 1][0], b[i + 1][0]
                             m2 = (PI - v2) if v2 > 0 else (-PI - v2)
-                            if abs(abs(m2 - v1) - PI) <= 1e-6:
+                            s3v = [vals(lf_, x_) for lf_, x_ in zip(lv, split_state(lv, f["s3"]))]
+                            rv2 = [vals(lf_, x_) for lf_, x_ in zip(lv, split_state(lv, f["r"]))]
+                            dv2 = [vals(lf_, x_) for lf_, x_ in zip(lv, split_state(lv, f["direct"]))]
+                            coded_r = klein_coded(s3v[i][0], s3v[i + 1][0], b[i][0], v2, u)
+                            coded_d = klein_coded(a[i][0], v1, b[i][0], v2, s + (1.0 - s) * u)
+                            # F62 = exactly the as-coded tie: both points are bit-identical to the as-coded formula
+                            if abs(abs(m2 - v1) - PI) <= 1e-6 and coded_r == (rv2[i][0], rv2[i + 1][0]) \
+                                    and coded_d == (dv2[i][0], dv2[i + 1][0]):
                                 cls = "klein seam branch, mirror(to.v) half a turn from from.v (tie between the two arcs)"
                 worst = max([x for _, x in bad_units] + [d])
                 fails.append({"clause": "reparam", "culprit": "+".join(owners) or sp[0], "class": cls,
@@ -855,7 +1102,7 @@ def oracle(script, impl):
     res = []
     for i, line in enumerate(script[1:]):
         out = impl[i] if i < len(impl) else "<missing>"
-        if line.startswith("space "):
+        if line.startswith(("space ", "mutate ")):
             sp, _ = parse_space(line.split()[1:])
             if out != "ok":
                 res.append((i + 1, {"clause": "protocol", "culprit": sp[0], "class": out, "what": "space not constructed"}))
@@ -897,7 +1144,7 @@ def correspondence(script, impl, model):
     for i, line in enumerate(script[1:]):
         o = impl[i] if i < len(impl) else "<missing>"
         m = model[i] if i < len(model) else "<missing>"
-        if line.startswith("space "):
+        if line.startswith(("space ", "mutate ")):
             try:
                 sp, _ = parse_space(line.split()[1:])
                 lv = leaves(sp)
@@ -906,21 +1153,30 @@ def correspondence(script, impl, model):
             if o != m:
                 res.append((i + 1, "diff", "space", False))
             continue
+        if line == "sanity":
+            continue
         fo, fm = fields(o), fields(m)
         if not fm or not fo or (o in ("bad-op", "oob-input", "<missing>")) or (m in ("bad-op", "oob-input", "<missing>")):
             if o != m:
                 res.append((i + 1, "diff", "line", False))
             continue
+        # an implementation that carries the PROPOSED F61 repair (notes/C07-fix-F61.diff: the short SO(2) branch is
+        # wrapped too) is accepted as well: the driver prints that variant as *_f61; the two variants differ only where
+        # rounding carries the short branch onto +pi
+        follows_f61 = any(k_ + "_f61" in fm and fm[k_ + "_f61"] != fm[k_] and fo.get(k_) == fm[k_ + "_f61"] for k_ in ("r", "s3", "direct"))
         for key in ("r", "s3", "direct", "sb", "ef", "et"):
             if key not in fm:
                 continue
+            want = fm[key + "_f61"] if follows_f61 and key + "_f61" in fm else fm[key]
             if key in ("sb", "ef", "et"):
-                if fo.get(key) != fm[key]:
+                if fo.get(key) != want:
                     res.append((i + 1, "diff", key, False))
                 continue
-            c = cmp_tokens(lv, fo.get(key, []), fm[key])
+            c = cmp_tokens(lv, fo.get(key, []), want)
             if c != "same":
                 res.append((i + 1, c, key, key == "r" and fo.get("r") == fm.get("old")))
+        if follows_f61:
+            res.append((i + 1, "f61", "r", False))
     return res
 
 
@@ -928,14 +1184,20 @@ def correspondence(script, impl, model):
 def branch_counts(ck, script):
     sp = None
     for line in script[1:]:
-        if line.startswith("space "):
+        if line.startswith(("space ", "mutate ")):
             sp, _ = parse_space(line.split()[1:])
+            continue
+        if line == "sanity":
+            ck.count("op:sanity")
             continue
         op, lv, a, b, par = parse_op(sp, line)
         ck.count("op:" + op)
         if op != "interp":
             continue
         t = par[0]
+        if not 0.0 <= t <= 1.0:
+            ck.count("t:outside-[0,1]-or-NaN (not judged)")
+            continue
         ck.count("t:" + ("0" if t == 0 else "1" if t == 1 else "tiny" if t <= EPS_D else "1-ulp" if t == dn(1.0) else "interior"))
         for lf, x, y in zip(lv, a, b):
             if lf["kind"] == "so2" and lf["owner"] in ("so2", "torus", "sphere"):
@@ -949,11 +1211,12 @@ def branch_counts(ck, script):
 
 
 def minimal(script, idx):
-    """[header, the governing `space` line, the op line]"""
+    """[header, the governing `space` line (+ the last `mutate` of that object, if any), the op line]"""
     j = idx
     while not script[j].startswith("space "):
         j -= 1
-    return [script[0], script[j], script[idx]]
+    mut = [l for l in script[j + 1:idx] if l.startswith("mutate ")][-1:]
+    return [script[0], script[j]] + mut + [script[idx]]
 
 
 def run_one(ck, hbin, script):
@@ -1016,13 +1279,18 @@ def run(ck):
             if tag.startswith("corpus:malformed"):
                 ck.count("malformed-lines")
                 continue
-            if line.startswith("space "):
+            if line.startswith(("space ", "mutate ")):
                 sp = line
+                continue
+            if line == "sanity":
                 continue
             op, lv, a, b, par = parse_op(parse_space(sp.split()[1:])[0], line)
             ck.case((sp, line), a != b and all(0.0 < p < 1.0 for p in par))
         if tag.startswith("gen") and len(ck.samples) < 4:
             ck.sample({"generator": tag, "script": script[:4] + ["…(%d more lines)" % (len(script) - 4)]})
+        for ln_, o_ in zip(script[1:], impl):
+            if ln_ == "sanity":
+                ck.count("library-sanityChecks:" + " ".join(o_.split()[1:6]))
         fails = [] if tag.startswith("corpus:malformed") else oracle(script, impl)
         if rc != 0 and not any(r["clause"] == "protocol" for _, r in fails):
             fails.append((min(len(impl) + 1, len(script) - 1), {"clause": "protocol", "culprit": "harness", "class": "exit code %s" % rc,
@@ -1039,6 +1307,9 @@ def run(ck):
             if kind == "drift":
                 ck.drift_events += 1
                 ck.count("drift:" + key)
+                continue
+            if kind == "f61":
+                ck.count("implementation-follows-the-proposed-F61-repair (accepted variant)")
                 continue
             if idx in bad_lines:
                 ck.count("disagreement-on-a-line-the-oracle-rejects" + (":impl-matches-pre-fix-SO2-clause" if is_old else ""))
@@ -1085,6 +1356,8 @@ def replay(ck, data):
     for idx, rec in fails:
         print("PROPERTY FAILS at line %d [%s / %s / %s]: %s" % (idx, rec["clause"], rec["culprit"], rec["class"], rec["what"]))
     diffs = [d for d in correspondence(script, impl, model) if d[1] == "diff"]
+    if any(d[1] == "f61" for d in correspondence(script, impl, model)):
+        print("(the implementation follows the proposed F61 repair on some line: accepted variant)")
     for idx, kind, key, is_old in diffs:
         print("model and implementation disagree at line %d on `%s`%s" % (idx, key, " (implementation = pre-fix SO(2) clause)" if is_old else ""))
     if fails or diffs or rc != 0:
@@ -1097,12 +1370,14 @@ MANIFEST = {
     "engine": "spaceinterp",
     "category": "proof",
     "design_ref": "DESIGN.md 2.7",
-    "text": "Lean 4 theorems over an executable model of StateSpace::interpolate for every shipped state space (end points, "
+    "text": "Lean 4 theorems over an executable model of StateSpace::interpolate for every shipped state space incl. SpaceTime, "
+            "Empty, Wrapper and the CForest wrapper; Dubins-family curves are C14's, constrained spaces C16's (end points, "
             "bounds, re-parameterisation incl. SO(3) slerp composition and the Mobius seam, proportional distance incl. SO(3) outside "
             "the arcLength clamp band, weight-irrelevance, fixed coordinates, a general soundness theorem for the aliasing rw-set "
             "obligation; arbitrarily nested weighted compounds by structural induction), "
             "tied to the C++ by bit-exact lock-step runs of the real libompl against the compiled model with the output aliased "
-            "to neither / from / to, plus the property itself evaluated on the implementation's outputs.",
+            "to neither / from / to, after histories (bounds / weights changed in place after setup), plus the property itself evaluated "
+            "on the implementation's outputs per component.",
     "note": "Trusted: Lean kernel, the three standard axioms, the hand-written model outside the inputs the correspondence explored, "
             "the harness and the python oracle. Theorems are over the reals (rounding executed, not verified); SO(3) results need exactly-unit "
             "quaternions and exclude the arcLength clamp band for proportional distance (F64); Mobius/Klein re-parameterisation across "
